@@ -104,7 +104,7 @@ impl Property for C04 {
     }
 
     fn budget(tier: Tier) -> u64 {
-        tier.pick(1600, 80_000)
+        tier.pick(1600, 10_000)
     }
 
     fn rule() -> &'static str {
